@@ -16,8 +16,10 @@ Ideal(c, flags, ackRel) == <<[to |-> c, flags |-> flags, seqRel |-> lastSeq[c], 
 Step(c) ==
   \/ /\ C!Syn(c, <<[to |-> c, flags |-> <<"SYN", "ACK">>, seqRel |-> 0, ackRel |-> 1, ipok |-> TRUE, tcpok |-> TRUE]>>)
      /\ hist' = Append(hist, [c |-> c, k |-> "syn", n |-> 0, psh |-> FALSE])
-  \/ /\ st[c] = "synrcvd" /\ C!Ack(c, <<>>)
+  \/ /\ st[c] \in {"synrcvd", "closing"} /\ C!Ack(c, <<>>)      \* completes the handshake / the client's close
      /\ hist' = Append(hist, [c |-> c, k |-> "ack", n |-> 0, psh |-> FALSE])
+  \/ /\ C!Rst(c, <<>>)
+     /\ hist' = Append(hist, [c |-> c, k |-> "rst", n |-> 0, psh |-> FALSE])
   \/ \E n \in Lens, p \in BOOLEAN :
        /\ st[c] = "estab" /\ rcvd[c] < 3000
        /\ C!Data(c, n, Ideal(c, <<"ACK">>, 1 + rcvd[c] + n))
